@@ -3481,6 +3481,8 @@ fn validate_extension_declarations(
     extensions: Vec<ExpirationExtension2>,
 ) -> Result<ExtendExpirationsInner, ActorError> {
     let mut claim_space_by_sector = BTreeMap::<SectorNumber, (u64, u64)>::new();
+    // A claim's space must be counted once: a repeated claim ID could stand in for other claims.
+    let mut declared_claims = BTreeSet::<ext::verifreg::ClaimID>::new();
 
     for decl in &extensions {
         let policy = rt.policy();
@@ -3497,6 +3499,16 @@ fn validate_extension_declarations(
             let mut drop_claims = sc.drop_claims.clone();
             let mut all_claim_ids = sc.maintain_claims.clone();
             all_claim_ids.append(&mut drop_claims);
+            for claim_id in &all_claim_ids {
+                if !declared_claims.insert(*claim_id) {
+                    return Err(actor_error!(
+                        illegal_argument,
+                        "failed to validate declaration sector={}, claim={} declared more than once",
+                        sc.sector_number,
+                        claim_id
+                    ));
+                }
+            }
             let claims = get_claims(rt, &all_claim_ids)
                 .with_context(|| format!("failed to get claims for sector {}", sc.sector_number))?;
             let first_drop = sc.maintain_claims.len();
